@@ -91,6 +91,7 @@ struct Req {
     cl: u32,
     body: Option<Vec<u8>>,
     nfiles: usize,
+    hdr: (bool, bool, bool),   // (expect, chunked, accept is application/json)
 }
 
 #[derive(Debug, Clone, PartialEq)]
@@ -127,6 +128,7 @@ fn drain_reqs(c: &mut HttpConnection<UnixStream>, out: &mut Vec<Req>) {
             cl: r.headers.content_length(),
             body: r.body.as_ref().map(|b| b.raw().to_vec()),
             nfiles: r.files.len(),
+            hdr: (r.headers.expect(), r.headers.chunked(), r.headers.accept() == MediaType::ApplicationJson),
         });
     }
 }
@@ -288,7 +290,7 @@ fn reference(stream: &[u8], limit: usize) -> Outcome {
             body = Some(s[..n].to_vec());
             s = &s[n..];
         }
-        o.delivered.push(Req { method: m, uri: abs_path(&u), version: v, cl: n as u32, body, nfiles: 0 });
+        o.delivered.push(Req { method: m, uri: abs_path(&u), version: v, cl: n as u32, body, nfiles: 0, hdr: (h.expect, h.chunked, h.accept_json) });
     }
 }
 
@@ -316,6 +318,8 @@ fn gen_request(rng: &mut Rng, limit: usize) -> Vec<u8> {
         r.extend_from_slice(name); r.extend_from_slice(b":"); if rng.chance(80) { r.push(b' '); } r.extend_from_slice(val); r.extend_from_slice(b"\r\n");
     }
     if rng.chance(20) { r.extend_from_slice(b"X-Custom: v\r\n"); }
+    if rng.chance(6) { r.extend_from_slice("X-Name: caf\u{e9} \u{20ac}\u{1f600} na\u{ef}ve\r\n".as_bytes()); }
+    if rng.chance(12) { r.extend_from_slice([&b"Content-Type: application/json\r\n"[..], b"Content-Type: text/plain\r\n", b"Content-Type: text/html\r\n", b"Accept: application/json\r\n", b"Accept: text/plain\r\n", b"Accept: image/png\r\n"][rng.below(6)]); }
     if rng.chance(8) { r.extend_from_slice(if rng.chance(70) { b"Transfer-Encoding: chunked\r\n" } else { b"Transfer-Encoding: identity\r\n" }); }
     if rng.chance(5) {
         r.extend_from_slice(b"X-Long: ");
@@ -331,7 +335,13 @@ fn gen_request(rng: &mut Rng, limit: usize) -> Vec<u8> {
 
 fn gen_stream(rng: &mut Rng, limit: usize) -> Vec<u8> {
     let mut s = vec![];
-    for _ in 0..(1 + rng.below(4)) { s.extend(gen_request(rng, limit)); if rng.chance(6) { s.extend_from_slice(b"\r\n"); } }
+    // mostly 1..4 requests; now and then a long pipeline of small ones (more than a handful completed by one read)
+    let n = if rng.chance(6) { 9 + rng.below(8) } else { 1 + rng.below(4) };
+    for _ in 0..n {
+        if n > 4 { s.extend_from_slice(format!("GET /p{} HTTP/1.1\r\n\r\n", rng.below(100)).as_bytes()); }
+        else { s.extend(gen_request(rng, limit)); }
+        if rng.chance(6) { s.extend_from_slice(b"\r\n"); }
+    }
     if rng.chance(30) { let cut = rng.below(s.len()); s.truncate(cut.max(1)); }
     s
 }
@@ -387,7 +397,35 @@ fn search_stream(prop: &str, budget: usize) {
     println!("{{\"status\":\"not-found\",\"tried\":{}}}", tried);
 }
 
+fn search_c11_server() {
+    // "one malformed request cannot make later well-formed requests on the same connection fail", also when the later
+    // request is already in the socket when the malformed one is rejected (malformed input ending on a 1024-byte read)
+    for pad in [0usize, 1, 5] {
+        let what = format!("one client writes an over-long request line of {} bytes (rejected with 400) immediately followed by GET /after", 1024 + pad);
+        let mut s = Srv::new("C11h9");
+        let mut c = s.connect("C11", &what);
+        let mut bytes = b"GET /".to_vec();
+        bytes.extend(vec![b'a'; 1024 + pad - 5]);
+        if pad > 0 { let n = bytes.len(); bytes[n - 2] = b'\r'; bytes[n - 1] = b'\n'; }
+        bytes.extend_from_slice(b"GET /after HTTP/1.1\r\n\r\n");
+        let _ = c.write_all(&bytes);
+        s.pump("C11", &what);
+        let yielded: Vec<String> = s.outstanding.iter().map(|r| r.request.uri().get_abs_path().to_string()).collect();
+        // what a new connection makes of the bytes after the rejected part
+        let (mut f, mut ftx) = new_conn(None);
+        let all = drive(&mut f, &mut ftx, &[bytes.clone()]);
+        let _ = all;
+        if pad == 0 && !yielded.iter().any(|u| u == "/after") {
+            // with exactly 1024 bytes the rejected line fills one read and nothing of it is left: /after must come through
+            s.done();
+            found("C11", what, format!("yielded {:?}", yielded), "the request /after is yielded to the application".into());
+        }
+        s.done();
+    }
+}
+
 fn search_c11(prop: &str, budget: usize) {
+    if prop == "C11" { search_c11_server(); }
     let mut rng = Rng(0x2545F4914F6CDD1D);
     let bad: Vec<Vec<u8>> = vec![
         b"GET /rejected HTTP/1.1\r\nContent-Length: abc\r\n".to_vec(),
@@ -620,6 +658,16 @@ fn search_c06(budget: usize) {
                     expect.extend(ser);
                 }
                 log.push(format!("read(Expect request)->{}", match &rr { Ok(()) => "Ok".to_string(), Err(e) => err_kind(e) }));
+                continue;
+            }
+            if rng.chance(4) {
+                // a malformed request arrives: the parser rejects it, the queued output is untouched
+                let mut peer = &_b;
+                let _ = peer.write_all(b"BAD\r\n\r\n");
+                let mut rr = c.try_read();
+                let mut tries = 0;
+                while matches!(rr, Err(micro_http::ConnectionError::StreamReadError(_))) && tries < 50 { std::thread::sleep(std::time::Duration::from_millis(2)); rr = c.try_read(); tries += 1; }
+                log.push(format!("read(malformed request)->{}", match &rr { Ok(()) => "Ok".to_string(), Err(e) => err_kind(e) }));
                 continue;
             }
             if queued < nresp && rng.chance(35) {
@@ -943,7 +991,7 @@ fn search_c14(budget: usize) {
     let mut rng = Rng(0x14c0ffee);
     let mut tried = 0usize;
     let probe = b"PUT /probe HTTP/1.1\r\nContent-Length: 2\r\n\r\nzz";
-    let extras: Vec<&[u8]> = vec![b"X-Note: first\nX-Other: second\r\n", b"X-A: 1\r\nX-A: 2\r\n", b"Accept: application/json\r\n", b"Transfer-Encoding: chunked\r\n", b"Content-Type: text/html\r\n", b"A:b\nContent-Length: 3\r\n", b"X-No-Colon-Here\r\n", b"Expect: 103-checkpoint\r\n"];
+    let extras: Vec<&[u8]> = vec![b"X-Note: first\nX-Other: second\r\n", b"X-A: 1\r\nX-A: 2\r\n", b"Accept: application/json\r\n", b"Transfer-Encoding: chunked\r\n", b"Content-Type: text/html\r\n", b"A:b\nContent-Length: 3\r\n", b"X-No-Colon-Here\r\n", b"Expect: 103-checkpoint\r\n", b"X-Tag: a\xffb\r\n"];
     while tried < budget.max(3000) {
         let mut slice = gen_request(&mut rng, 1500);
         // sometimes splice an extra header line in front of the blank line, add or remove trailing bytes, or corrupt a byte
@@ -1311,9 +1359,11 @@ impl Srv {
         for _ in 0..40 {
             let mut p = libc::pollfd { fd: self.server.epoll().as_raw_fd(), events: libc::POLLIN, revents: 0 };
             if unsafe { libc::poll(&mut p, 1, 20) } <= 0 { break; }
-            match self.server.requests() {
-                Ok(v) => self.outstanding.extend(v),
-                Err(e) => { let _ = std::fs::remove_file(&self.path); found(prop, what.to_string(), format!("HttpServer::requests() = Err({})", e), "Ok(..): polling keeps returning normally".into()); }
+            let server = &mut self.server;
+            match std::panic::catch_unwind(std::panic::AssertUnwindSafe(|| server.requests())) {
+                Ok(Ok(v)) => self.outstanding.extend(v),
+                Ok(Err(e)) => { let _ = std::fs::remove_file(&self.path); found(prop, what.to_string(), format!("HttpServer::requests() = Err({})", e), "Ok(..): polling keeps returning normally".into()); }
+                Err(_) => { let _ = std::fs::remove_file(&self.path); found(prop, what.to_string(), "HttpServer::requests() panicked".into(), "Ok(..): polling keeps returning normally".into()); }
             }
         }
     }
@@ -1377,6 +1427,39 @@ fn search_server_blocking() {
 fn search_server_histories(prop: &str) {
     if prop == "C09" { search_server_blocking(); }
     if prop == "C07" {
+        // H8: a response larger than the socket buffer reaches a slow reader byte for byte, once
+        {
+            let what = "a client asks for /large; the application answers with a 1 MiB body; the client reads slowly while the server is polled";
+            let mut s = Srv::new("C07h8");
+            let mut c = s.connect(prop, what);
+            let _ = c.write_all(b"GET /large HTTP/1.1\r\n\r\n");
+            s.pump(prop, what);
+            if let Some(i) = s.outstanding.iter().position(|r| r.request.uri().get_abs_path() == "/large") {
+                let r = s.outstanding.remove(i);
+                let body: Vec<u8> = (0..(1usize << 20)).map(|k| b'a' + (k % 23) as u8).collect();
+                let mut expect = vec![];
+                { let mut x = Response::new(Version::Http11, StatusCode::OK); x.set_body(Body::new(body.clone())); x.write_all(&mut expect).unwrap(); }
+                let _ = s.server.respond(r.process(|_| { let mut x = Response::new(Version::Http11, StatusCode::OK); x.set_body(Body::new(body.clone())); x }));
+                let mut got = vec![];
+                let t0 = std::time::Instant::now();
+                while got.len() < expect.len() && t0.elapsed().as_secs() < 20 {
+                    s.pump(prop, what);
+                    let before = got.len();
+                    c.set_nonblocking(true).unwrap();
+                    let mut b = [0u8; 3000];
+                    if let Ok(n) = c.read(&mut b) { got.extend_from_slice(&b[..n]); }
+                    if got.len() == before && !ready(&s.server) { std::thread::sleep(std::time::Duration::from_millis(1)); }
+                    if got.len() > expect.len() || got[..] != expect[..got.len()] { break; }
+                }
+                let bad = got.len() > expect.len() || got[..] != expect[..got.len().min(expect.len())];
+                if bad {
+                    let at = got.iter().zip(expect.iter()).position(|(a, b)| a != b).unwrap_or(expect.len().min(got.len()));
+                    s.done();
+                    found(prop, what.into(), format!("the bytes received differ from the response at offset {} (received so far: {})", at, got.len()), "exactly the serialised response, each byte once".into());
+                }
+            }
+            s.done();
+        }
         // H7: answers supplied while earlier ones are partly flushed keep the order the application supplied
         {
             let what = "one client pipelines /o/r0 /o/r1 /o/r2; the application answers r0 and r1; the server is polled once; r2 is answered; everything is flushed";
